@@ -3,6 +3,8 @@
 #define _GNU_SOURCE
 #include <dlfcn.h>
 #include <errno.h>
+#include <fcntl.h>
+#include <sys/stat.h>
 #include <stdio.h>
 #include <string.h>
 #include <sys/types.h>
@@ -26,17 +28,20 @@ static void init(void) {
     r_write = (ssize_t(*)(int, const void*, size_t))dlsym(RTLD_NEXT, "write");
     r_lseek64 = (off64_t(*)(int, off64_t, int))dlsym(RTLD_NEXT, "lseek64");
 }
-void vf_shim_reset(void) { memset(&vf_stats, 0, sizeof vf_stats); vf_stats.devFd = -1; }
+static int vf_extraFd[8]; static int vf_extraN = 0;   /* further descriptors open on the device besides devFd */
+void vf_shim_reset(void) { memset(&vf_stats, 0, sizeof vf_stats); vf_stats.devFd = -1; vf_extraN = 0; }
 
+static int is_dev_fd(int fd) { if (fd < 0) return 0; if (fd == vf_stats.devFd) return 1; for (int i = 0; i < vf_extraN; ++i) if (vf_extraFd[i] == fd) return 1; return 0; }
+static void forget_fd(int fd) { if (fd == vf_stats.devFd) { vf_stats.devFd = vf_extraN ? vf_extraFd[--vf_extraN] : -1; return; } for (int i = 0; i < vf_extraN; ++i) if (vf_extraFd[i] == fd) { vf_extraFd[i] = vf_extraFd[--vf_extraN]; return; } }
 static int is_dev(const char* path) { return vf_plan.active && vf_plan.prefix[0] && strncmp(path, vf_plan.prefix, strlen(vf_plan.prefix)) == 0; }
 
 static FILE* open_common(FILE* (*real)(const char*, const char*), const char* path, const char* mode) {
     init();
-    if (is_dev(path) && strchr(mode, 'w')) {
+    if (is_dev(path) && (strchr(mode, 'w') || strchr(mode, 'a') || strchr(mode, '+'))) {   /* every write-capable open of the device path (a second stream on the same file, append or update mode, counts too) */
         vf_stats.opens++;
         if (vf_plan.openErrno) { vf_stats.injected++; errno = vf_plan.openErrno; return NULL; }
         FILE* f = real(path, mode);
-        if (f) vf_stats.devFd = fileno(f);
+        if (f) { int fd = fileno(f); if (vf_stats.devFd < 0) vf_stats.devFd = fd; else if (vf_extraN < 8) vf_extraFd[vf_extraN++] = fd; }
         return f;
     }
     return real(path, mode);
@@ -47,8 +52,8 @@ FILE* fopen64(const char* path, const char* mode) { init(); return open_common(r
 int fclose(FILE* f) {
     init();
     int fd = f ? fileno(f) : -1;
-    if (vf_plan.active && fd >= 0 && fd == vf_stats.devFd) {
-        vf_stats.closes++; vf_stats.devFd = -1;
+    if (vf_plan.active && is_dev_fd(fd)) {
+        vf_stats.closes++; forget_fd(fd);
         int rc = r_fclose(f);
         if (vf_plan.closeFailErrno) { vf_stats.injected++; errno = vf_plan.closeFailErrno; return EOF; }
         return rc;
@@ -58,12 +63,13 @@ int fclose(FILE* f) {
 
 ssize_t write(int fd, const void* buf, size_t n) {
     init();
-    if (!(vf_plan.active && fd == vf_stats.devFd && fd >= 0)) return r_write(fd, buf, n);
+    if (!(vf_plan.active && is_dev_fd(fd))) return r_write(fd, buf, n);
     vf_stats.writeCalls++;
     if (vf_plan.failWriteCall > 0 && vf_stats.writeCalls == vf_plan.failWriteCall) { vf_stats.injected++; errno = vf_plan.failErrno ? vf_plan.failErrno : EIO; return -1; }
     size_t take = n;
     if (vf_plan.capacity >= 0) {
         off64_t pos = r_lseek64(fd, 0, SEEK_CUR);
+        { int fl = fcntl(fd, F_GETFL); struct stat sb; if (fl >= 0 && (fl & O_APPEND) && fstat(fd, &sb) == 0) pos = sb.st_size; }   /* an append-mode descriptor writes at the end whatever its offset says */
         long room = vf_plan.capacity - (long)pos;
         if (room <= 0 && n > 0) { vf_stats.injected++; errno = ENOSPC; return -1; }
         if ((long)take > room) { take = (size_t)room; vf_stats.injected++; }
@@ -78,4 +84,4 @@ ssize_t writev(int fd, const struct iovec* iov, int cnt) {   /* route through wr
     for (int i = 0; i < cnt; ++i) if (iov[i].iov_len) return write(fd, iov[i].iov_base, iov[i].iov_len);
     return 0;
 }
-off64_t lseek64(int fd, off64_t off, int whence) { init(); if (vf_plan.active && fd == vf_stats.devFd) vf_stats.seeks++; return r_lseek64(fd, off, whence); }
+off64_t lseek64(int fd, off64_t off, int whence) { init(); if (vf_plan.active && is_dev_fd(fd)) vf_stats.seeks++; return r_lseek64(fd, off, whence); }
